@@ -117,6 +117,16 @@ def fixed_cases():
     return out
 
 
+def exhaustive_cases():
+    """every 2-row frame of two feature columns over six values that stress both encodings (6^4 frames)"""
+    V = ["", "1", "11", "1:", ":1", "2:"]
+    out = []
+    for a0, b0, a1, b1 in itertools.product(V, repeat=4):
+        out.append({"names": ["a", "b", "label"], "rows": [[a0, b0, "0"], [a1, b1, "1"]], "label": "label", "order": 2,
+                    "cap": 10, "is3mr": False})
+    return out
+
+
 def load_corpus(pid):
     d = os.path.join(vlib.VERIF, "corpus", pid)
     out = []
@@ -277,9 +287,11 @@ def check(run, replay):
         cases = [replay["case"]]
     else:
         cases = load_corpus("C10") + fixed_cases()
-        n = 110 if run.tier == "quick" else 1200
+        n = 170 if run.tier == "quick" else 1500
         for _ in range(n):
             cases.append(gen_case(run.rng))
+        if run.tier == "thorough":
+            cases.extend(exhaustive_cases())
     verdicts = evaluate(cases)
 
     hist = {"rows": {}, "order": {}, "binding_cap": 0, "is3mr": 0, "impl_errors": 0, "new_columns": 0,
@@ -342,6 +354,8 @@ def check(run, replay):
                           clause=bestv["fail"][0])
     run.cov["input_distribution"] = hist
     run.cov["exhaustive"] = False
+    if run.tier == "thorough" and replay is None:
+        run.cov["exhaustive_small_scope"] = "all 1296 two-row frames of two feature columns over ['', '1', '11', '1:', ':1', '2:']"
     run.samples = cases[:2]
     run.assumptions += [
         "hash cells of each new column are relabelled to ids by a Python dict (equal id <-> equal cell); "
